@@ -524,7 +524,33 @@ func TestC05(t *testing.T) {
 		default:
 			pauseAt = -1
 		}
-		c.Class("read-timeout/where=%d", where)
+		// half of the header pauses hit a message built so that its bytes from
+		// offset 16 on are themselves a well-formed message (End-to-End id =
+		// version 1 + length, first AVP code = flags + command 257): a reader
+		// that resumes framing in the middle would deliver it
+		trap := false
+		if where == 0 && r.IntN(2) == 0 {
+			inner := 20 + 8 + 24 // inner header (16 bytes of outer AVP 1 + ...) see below
+			_ = inner
+			body := append(rawHeader(0x80000101, 0x40, 0, 16), 0, 0, 0, 9, 0, 0, 0, 9)
+			body = append(body, rawHeader(9001, 0x40, 0, 8+12)...)
+			body = append(body, []byte("trap-payload")...)
+			L := 20 + len(body)
+			h := refcodec.Header{Version: 1, Length: uint32(L), Flags: 0x80, Code: 8388000, HopByHop: uint32(c.I*16 + victim + 1), EndToEnd: 0x01000000 | uint32(L-16)}
+			tm := append(refcodec.EncodeHeader(h), body...)
+			msgs[victim] = tm
+			stream = nil
+			for _, m := range msgs {
+				stream = append(stream, m...)
+			}
+			start = 0
+			for k := 0; k < victim; k++ {
+				start += len(msgs[k])
+			}
+			pauseAt = start + 16
+			trap = true
+		}
+		c.Class("read-timeout/where=%d/trap=%v", where, trap)
 		var got [][]byte
 		var mu sync.Mutex
 		leak := runBubbleWD(t, rec, c, 60*time.Second, func() {
